@@ -245,6 +245,11 @@ impl<'k> Renderer<'k> {
         self.stack.len()
     }
 
+    /// Byte offset at which the next segment will start.
+    pub fn offset(&self) -> usize {
+        self.out.text.len()
+    }
+
     fn push_lines(&mut self, text: &str) {
         for (i, l) in text.split('\n').enumerate() {
             if i > 0 {
